@@ -87,6 +87,11 @@ def logical_type(lt):
     empty = {"STRING": 1, "MAP": 2, "LIST": 3, "ENUM": 4, "DATE": 6, "NULL": 11, "JSON": 12, "BSON": 13,
              "UUID": 14, "FLOAT16": 15}
     k = lt[0]
+    if k == "EXTRA":
+        # a known member whose struct carries an additional, unknown field (and unknown fields in the TimeUnit union's member)
+        inner = logical_type(lt[1:])
+        fid, ty, body = inner[0]
+        return [(fid, ty, list(body) + [(9, T_BINARY, b"later-addition"), (12, T_STRUCT, [(1, T_I64, 5)])])]
     if k == "RAW":
         # any union member id with a body of our choosing: 0 empty struct, 1 struct with fields, 2 nested structs and a list
         fid, variant = lt[1], lt[2]
@@ -111,7 +116,7 @@ def logical_type(lt):
 
 
 def schema_element(name=None, type=None, type_length=None, repetition=None, num_children=None,
-                   converted_type=None, logical=None, field_id=None):
+                   converted_type=None, logical=None, field_id=None, scale=None, precision=None, unknown_field=False):
     f = []
     if type is not None:
         f.append((1, T_I32, type))
@@ -125,14 +130,21 @@ def schema_element(name=None, type=None, type_length=None, repetition=None, num_
         f.append((5, T_I32, num_children))
     if converted_type is not None:
         f.append((6, T_I32, converted_type))
+    if scale is not None:
+        f.append((7, T_I32, scale))
+    if precision is not None:
+        f.append((8, T_I32, precision))
     if field_id is not None:
         f.append((9, T_I32, field_id))
     if logical is not None:
         f.append((10, T_STRUCT, logical_type(logical)))
+    if unknown_field:
+        f.append((13, T_LIST, (T_STRUCT, [[(1, T_BINARY, b"x")], []])))     # a field a reader must skip
     return f
 
 
-def statistics(max_old=None, min_old=None, null_count=None, distinct_count=None, max_value=None, min_value=None):
+def statistics(max_old=None, min_old=None, null_count=None, distinct_count=None, max_value=None, min_value=None,
+               is_max_exact=None, is_min_exact=None, unknown_field=False):
     f = []
     if max_old is not None:
         f.append((1, T_BINARY, max_old))
@@ -146,6 +158,12 @@ def statistics(max_old=None, min_old=None, null_count=None, distinct_count=None,
         f.append((5, T_BINARY, max_value))
     if min_value is not None:
         f.append((6, T_BINARY, min_value))
+    if is_max_exact is not None:
+        f.append((7, T_BOOL, is_max_exact))
+    if is_min_exact is not None:
+        f.append((8, T_BOOL, is_min_exact))
+    if unknown_field:
+        f.append((11, T_STRUCT, [(1, T_BINARY, b"future"), (2, T_LIST, (T_I64, [1, 2, 3]))]))    # a field a reader must skip
     return f
 
 
